@@ -317,6 +317,9 @@ _TOL = {"|Q/K-1|": Q_RTOL, "conservation": "%g*sum|terms|" % CONS_RTOL}
 SUBCHECKS = [
     SubCheck("homogeneous", check_homog, strategy=G.c08_cases(), quick=400, thorough=32000, tolerances=_TOL,
              rule="G.c08_cases: subsets of 1-4 pool equilibria x 4 solver chains; soundness of every success-and-sane result"),
+    SubCheck("lin_chain", check_homog, strategy=G.c08_cases(chains=("lin",)), quick=800, thorough=16000, tolerances=_TOL,
+             rule="same domain, (NumSysLin,) only: the chain whose raw results most often leave the admissible region, "
+                  "i.e. where the `sane` flag does the work (and where D10 lives)"),
     SubCheck("success_rate", check_rate, strategy=G.c08_batches(200), quick=2, thorough=100,
              rule="batches of 200 cases of the homogeneous domain, default chain: >= 190 report success and sane",
              tolerances={"required successes per batch of 200": 190}),
